@@ -255,8 +255,25 @@ def genall_c09(info):
 
 
 def gen_C15(info):
-    """no generated obligations of its own; the NC half lives in a proof module that is built for this check"""
+    """the NC half lives in a proof module that is built for this check; the sign half: tools/gen_c15_sign.py computes,
+    from the translated programs, the greatest closed sets of lines that can only be not-negative and emits
+    Gen/C15Sign_<year>.lean (closedness by `decide +kernel`); lines of the reviewed baseline that dropped out are
+    listed in c15_sign_failed.json"""
+    import json
     info['extra_targets'] += ['HabuVerif.Proofs.C15NC']
+    if _gen_tool(info, 'gen_c15_sign.py', 'c15sign'):
+        try:
+            info['c15_sign_failed'] = json.load(open(os.path.join(GEN_DIR, 'c15_sign_failed.json')))
+            sets = json.load(open(os.path.join(GEN_DIR, 'c15_sign.json')))
+            info['c15_sign_sizes'] = {f'{y}/{v}': len(d.get('in', d.get('set', []))) for y, yy in sets.items() if isinstance(yy, dict)
+                                      for v, d in yy.items() if isinstance(d, dict)}
+        except Exception as e:  # noqa: BLE001
+            info['failed'].append({'id': 'c15sign', 'log': repr(e)})
+    info['extra_targets'] += ['HabuVerif.Props.C15Sign']
+
+
+def genall_c15(info):
+    gen_C15(info)
 
 
 def gen_C10(info):
